@@ -83,10 +83,11 @@ func (b *ByteBuffer) Commit(n int) {
 		return
 	}
 
-	b.ri += n
-	if b.ri > b.wi {
-		b.ri = b.wi
+	// Clamp before adding: ri + n wraps around for a huge n.
+	if writeLen := b.WriteLen(); n > writeLen {
+		n = writeLen
 	}
+	b.ri += n
 }
 
 // Prefault the buffer, forcing physical memory allocation.
